@@ -924,7 +924,8 @@ def mod(ip, a, b):
         raise_("ZeroDivisionError", "modulo by zero")
     if ip.st.feasible(b < 0):
         raise Unsupported("modulo by a possibly negative number")
-    return Sym(a % b, INT)
+    mt = getattr(ip.ctx.unit, "mod_term", None)  # a unit may keep `%` uninterpreted (symbolic divisor: nonlinear)
+    return Sym(mt(a, b) if mt is not None else a % b, INT)
 
 
 def unpack(ip, v, n):
